@@ -14,6 +14,12 @@ Source lines (src/nasdaq_protocols):
   common/session.py         initiate_close 245-256, close 258-273
   common/message_queue.py   get / get_nowait / _blocking_read / stop   (single `_recv_task` slot)
 
+`close_lock` is an RLock; no thread ever acquires it twice (callers take it once per close()/logout(), the loop thread
+once in on_close_coro, and the bridged coroutine runs on the *loop* thread, not on the caller that holds the lock), so
+the model keeps only the owner — `C20_lock_discipline` shows an acquire is attempted only by a thread that does not hold it.
+The peer script is what the peer will still do; after EndOfSession / disconnect / having received a LogoutRequest it does
+nothing more.
+
 What is *not* modelled: the OS scheduler and fairness (every interleaving is allowed, nothing is assumed fair),
 message contents (the queue is a counter), heartbeats (intervals are taken long).  One job = one atomic loop step
 (asyncio needs 2-3 loop iterations); the only ordering of asyncio's FIFO ready queue that is relied upon is
